@@ -10,6 +10,13 @@ TRUST = ('Trusted base: clang 14 parser/sema as the reading of the source; the l
 
 # rules added during the robustness / second seeding rounds (appended to the decided clauses)
 EXTRA = {
+    'C18': 'rejection outside the domain and the number of recorded points as boolean functions of the loop\'s tests; Inverse_Transform_Sampling / Sample_Gauss inherit C02 / C07.d',
+    'C17': 'the executed set of (component, l_hat, m_hat) terms of the vector spherical harmonics; Inv_Erf inherits C02\'s obligations about Find_Root',
+    'C16': 'rotations about a general axis inherit C04\'s obligations about Vector::Norm/Normalize/Normalized',
+    'C13': 'the spherical overload inherits C16\'s obligations about Spherical_Coordinates(r,theta,phi)',
+    'C11': 'the bracketing triple stays ordered (middle point strictly between the outer ones) on every path, decided on a finite set of placements of the points',
+    'C09': 'search phases written with std::lower_bound/upper_bound are classified by the segment convention they implement',
+    'C05': 'the row operation of the elimination covers every column of the work array; the pivot may be read into a local only after the exchange',
     'C01': 'every returning path of Interpolate evaluates the segment polynomial (shortcuts only at exactly tested points)',
     'C04': 'size invariant of Vector (components.size()==dimension after every writer) and copy completeness of the copy constructors / operator= of Vector and Matrix (every member copied on every path)',
     'C06': 'GammaP+GammaQ=1 as an identity of terms on every pair of branches; no history-carrying function-local state in the gamma family (exact caches exempt)',
@@ -17,8 +24,8 @@ EXTRA = {
     'C08': 'cached state of the integral/extremum queries: every writer of an input of the cached value (transitively through in-class helpers) touches the cache',
     'C10': 'every field the domain guard of Locate reads is computed after the abscissae received their unit factor; Export_Table checks the length of every row; an order guard written with std::adjacent_find',
     'C12': 'the rule builder and the three integrators keep no history-carrying local state (exact caches exempt)',
-    'C14': 'every value Miser writes into its mean is the mean of the box\'s own samples or the fraction-weighted mean of its two halves',
-    'C15': 'C15.a/b/c are decided on normal forms of object-valued terms (reflector I-2uu^T, one QR sweep incl. early-continue paths, one QR iteration and its convergence measure)',
+    'C14': 'the bin of a Vegas sample point is the integer part of its own stratified coordinate; every value Miser writes into its mean is the mean of the box\'s own samples or the fraction-weighted mean of its two halves',
+    'C15': 'QR and the eigen routines inherit C04's obligations about Norm/Normalize/products/block constructor; C15.a/b/c are decided on normal forms of object-valued terms (reflector I-2uu^T, one QR sweep incl. early-continue paths, one QR iteration and its convergence measure)',
     'C19': 'Range written with a precomputed length is evaluated as a closed form on the complete domain min,max in [-40,40], stepsize 1..40',
     'C20': 'Count_Lines counts every line unconditionally; Export/Import element and unit terms are evaluated in the loop state',
 }
